@@ -318,7 +318,7 @@ func (in *Interp) ensureInit(pkg *ssa.Package) {
 	if strings.HasPrefix(pp, "internal/") && !internalOK {
 		return
 	}
-	for _, pre := range []string{"runtime", "reflect", "os", "syscall", "crypto/", "net", "sync", "log", "encoding/json",
+	for _, pre := range []string{"runtime", "reflect", "os", "syscall", "crypto/", "net/", "sync", "log", "encoding/json",
 		"testing", "golang.org/x/sys", "vendor/", "unsafe", "context", "io/fs", "path", "hash", "compress", "mime", "html", "text/", "go/"} {
 		if pp == pre || strings.HasPrefix(pp, pre) && (strings.HasSuffix(pre, "/") || len(pp) == len(pre) || pp[len(pre)] == '/') {
 			return
